@@ -184,6 +184,9 @@ pub struct Ctx {
     pub preferred_pivots: Vec<u32>,
     /// when set, only these atoms may be chosen as pivots (counter-strategy search)
     pub pivot_filter: Option<Vec<u32>>,
+    /// disequalities of the path condition that counter-strategy searches may violate: the very
+    /// comparison whose generic failure is being justified
+    pub ne_ignore: Vec<(u32, u32)>,
     pub z3: Option<Z3>,
     pub obligations: Vec<Obligation>,
     pub failures: Vec<Failure>,
@@ -251,6 +254,7 @@ pub fn reset(cfg: RunCfg) {
             equations: vec![],
             preferred_pivots: vec![],
             pivot_filter: None,
+            ne_ignore: vec![],
             z3,
             obligations: vec![],
             failures: vec![],
@@ -867,7 +871,17 @@ impl Ctx {
     /// occurring anywhere else) with a slope the path condition forces non-zero.
     /// Returns the atom used.
     pub fn prove_gr(&mut self, resid: u32, fresh_from: u32, adv: &[u32], what: &str) -> Option<u32> {
-        self.prove_gr_d(resid, fresh_from, adv, what, 0)
+        let lits: Vec<(u32, u32)> = self.pc.iter().filter_map(|l| if let Lit::Ne(x, y) = l { Some((*x, *y)) } else { None }).collect();
+        let mut ign = vec![];
+        for (x, y) in lits {
+            if self.sub(x, y) == resid || self.sub(y, x) == resid {
+                ign.push((x, y));
+            }
+        }
+        self.ne_ignore = ign;
+        let r = self.prove_gr_d(resid, fresh_from, adv, what, 0);
+        self.ne_ignore.clear();
+        r
     }
     fn prove_gr_d(&mut self, resid: u32, fresh_from: u32, adv: &[u32], what: &str, depth: u32) -> Option<u32> {
         let deep = self.deep_support(resid);
@@ -897,13 +911,50 @@ impl Ctx {
                         continue;
                     }
                 }
-                Node::Uf(_, args) => {
+                Node::Uf(sig, args) => {
                     let mut inside = BTreeSet::new();
-                    for a in args {
-                        inside.extend(self.deep_support(a));
+                    for a in args.iter() {
+                        inside.extend(self.deep_support(*a));
                     }
                     if adv_in.iter().any(|a| !inside.contains(a)) {
                         continue;
+                    }
+                    // A hash output is only "fresh" if the adversary cannot steer its preimage onto the
+                    // preimage of another application of the same function (then the two outputs are
+                    // one and the same value, however the adversarial inputs were chosen). Adversarial
+                    // pivots only; disequalities of the path condition are respected.
+                    if !adv_in.is_empty() {
+                        let others: Vec<u32> = self.uf_apps.get(&sig).cloned().unwrap_or_default();
+                        let mut steerable = false;
+                        for w in others {
+                            if w == v {
+                                continue;
+                            }
+                            let Node::Uf(_, wargs) = self.nodes[w as usize].clone() else { continue };
+                            if wargs.len() != args.len() {
+                                continue;
+                            }
+                            let snap = self.snapshot_worlds();
+                            let mut all = true;
+                            for (x, y) in args.iter().zip(wargs.iter()) {
+                                if x == y {
+                                    continue;
+                                }
+                                let d = self.sub(*x, *y);
+                                if !self.adversary_solves(d, adv, 1) {
+                                    all = false;
+                                    break;
+                                }
+                            }
+                            self.restore_worlds(snap);
+                            if all {
+                                steerable = true;
+                                break;
+                            }
+                        }
+                        if steerable {
+                            continue;
+                        }
                     }
                 }
                 _ => continue,
@@ -976,24 +1027,13 @@ impl Ctx {
             // atoms are pivots (an honest draw hitting the one accepted value is no counterexample).
             // The model found describes the accepting run; it is attached to the failure so that the
             // concrete replay on the real code decides. Path state is restored afterwards.
-            let pc_saved = self.pc.clone();
             let snap = self.snapshot_worlds();
-            let lits: Vec<(u32, u32)> = self.pc.iter().filter_map(|l| if let Lit::Ne(x, y) = l { Some((*x, *y)) } else { None }).collect();
-            let mut drop: Vec<(u32, u32)> = vec![];
-            for (x, y) in lits {
-                if self.sub(x, y) == resid || self.sub(y, x) == resid {
-                    drop.push((x, y));
-                }
-            }
-            self.pc.retain(|l| !matches!(l, Lit::Ne(x, y) if drop.contains(&(*x, *y))));
             if self.adversary_solves(resid, adv, 0) {
                 det.push_str(" — counter-strategy found: adversarial values for which the residual vanishes for every later honest draw (model attached)");
                 self.fail(what, det, false);
-                self.pc = pc_saved;
                 self.restore_worlds(snap);
                 return None;
             }
-            self.pc = pc_saved;
             self.restore_worlds(snap);
         }
         self.fail(what, det, false);
